@@ -888,10 +888,11 @@ func (tb *TermBuilder) call(ctx *Ctx, c *ssa.Call, extract int) *Term {
 		k := tb.child(ctx, c, callee)
 		var alts []*Term
 		seen := map[*Term]bool{}
+		live := tb.liveBlocks(k)
 		for _, b := range callee.Blocks {
 			r, ok := b.Instrs[len(b.Instrs)-1].(*ssa.Return)
-			if !ok {
-				continue
+			if !ok || !live[b] {
+				continue // returns in blocks that constant arguments make unreachable do not count
 			}
 			var rv ssa.Value
 			switch {
